@@ -3,10 +3,13 @@
 package checks
 
 import (
+	"bytes"
 	"fmt"
 	"os"
 	"testing"
 
+	faiss "github.com/blevesearch/go-faiss"
+	zap "github.com/blevesearch/zapx/v16"
 	"pgregory.net/rapid"
 
 	"verifharness/drive"
@@ -121,6 +124,11 @@ func runVecPlanCase(c planCase) *Violation {
 		if v := checkVectorEnvelope(prop, tag, f, want); v != nil {
 			return v
 		}
+		// a clustered merged index must be configured like an index built directly from the
+		// survivors (same number of probed clusters), or searches differ although the vectors agree
+		if v := compareProbesWithRebuild(prop, tag, f, want, r.Docs); v != nil {
+			return v
+		}
 	}
 	if m := faissMisuse(); m != "" {
 		return violation(prop, "vec/engine-misuse", "%s", m)
@@ -187,3 +195,64 @@ var c15 = Check[planCase]{
 func init() { c15.register() }
 
 func TestC15(t *testing.T) { c15.Rapid(t) }
+
+// nprobeOf reads the probe count of every clustered vector index of a decoded file.
+func nprobeOf(f *indep.File) (map[string]int32, error) {
+	out := map[string]int32{}
+	for _, fi := range f.Fields {
+		if fi.Vector == nil || len(fi.Vector.Entries) < 1000 {
+			continue
+		}
+		idx, err := faiss.ReadIndexFromBuffer(fi.Vector.IndexBytes, 0)
+		if err != nil {
+			return nil, err
+		}
+		if idx.IsIVFIndex() {
+			out[fi.Name] = idx.GetNProbe()
+		}
+		idx.Close()
+	}
+	return out, nil
+}
+
+func compareProbesWithRebuild(prop, tag string, merged *indep.File, want *spec.Obs, survivors []spec.DocSpec) *Violation {
+	clustered := false
+	for _, vf := range want.Vec {
+		if len(vf.Entries) >= 1000 {
+			clustered = true
+		}
+	}
+	if !clustered {
+		return nil
+	}
+	got, err := nprobeOf(merged)
+	if err != nil {
+		return violation(prop, "merge/undecodable", "%s: %v", tag, err)
+	}
+	var ref map[string]int32
+	if err := drive.Safe(func() error {
+		seg, _, e := drive.Build(&spec.BatchSpec{Docs: survivors}, 0)
+		if e != nil {
+			return e
+		}
+		defer seg.Close()
+		var buf bytes.Buffer
+		if _, e := seg.(*zap.SegmentBase).WriteTo(&buf); e != nil {
+			return e
+		}
+		f, e := indep.Decode(buf.Bytes())
+		if e != nil {
+			return e
+		}
+		ref, e = nprobeOf(f)
+		return e
+	}); err != nil {
+		return violation(prop, "merge/rebuild-error", "%s: building the survivors directly failed: %v", tag, err)
+	}
+	for f, n := range ref {
+		if g, ok := got[f]; ok && g != n {
+			return violation(prop, "merge/clustered-index-configuration", "%s: field %q: the merged clustered index probes %d clusters per search, an index built directly from the same %d survivors probes %d", tag, f, g, len(want.Vec[f].Entries), n)
+		}
+	}
+	return nil
+}
